@@ -26,6 +26,8 @@ EXPLANATION = (
     " R20.8: path data is written by Path.svg_d and read back by the path parser; C07's running-point rule"
     ' R07.3 (initial point, every segment written relative to the running point, advance on every path, smooth'
     ' shorthand, both loops alike) runs here as well.'
+    ' R20.9: every written matrix is transform * inverse(viewport transform) and the reader multiplies the'
+    ' viewport transform back in; the two-sided inverse identities of C04 R04.5 run here as well.'
 )
 TECHNIQUE = (
     "static analysis (no execution): writer/reader attribute-key agreement tables; reader-default vs writer skip rule; def-use roles for the inverse-viewport composition order and paint emission"
